@@ -16,9 +16,10 @@ def pend (strict : Bool) (st : St) : List Sid :=
   | .sending _ b => if strict then b.current.flatMap b.sidsOf else b.allSids
   | .retryWait _ b tps => if strict then tps.flatMap b.sidsOf else b.allSids
 
-/-- every outstanding send is queued or (the batch not resolved, not stopping) pending -/
-def PV (strict : Bool) (st : St) (resolved : Bool) : Prop :=
-  ∀ x ∈ st.outstanding, x ∈ queued st ∨ (st.stopping = false ∧ resolved = false ∧ x ∈ pend strict st)
+/-- every outstanding send is queued, or exempt (`E`: the sends of batches for which the client did not account), or
+    (the batch not resolved, not stopping) pending -/
+def PV (strict : Bool) (E : List Sid) (st : St) (resolved : Bool) : Prop :=
+  ∀ x ∈ st.outstanding, (x ∈ queued st ∨ x ∈ E) ∨ (st.stopping = false ∧ resolved = false ∧ x ∈ pend strict st)
 
 /-! ### `_send_requests`: every look-up's send fails or joins a payload -/
 
@@ -100,15 +101,15 @@ theorem procResults_grouped (ls : List Lookup) (out : List Sid) (gs : List Paylo
 
 /-! ### `PV` only reads four fields -/
 
-theorem PV.shrink {strict : Bool} {a b : St} {r : Bool} (h : PV strict a r)
+theorem PV.shrink {strict : Bool} {E : List Sid} {a b : St} {r : Bool} (h : PV strict E a r)
     (ho : ∀ x ∈ b.outstanding, x ∈ a.outstanding) (hq : b.queue = a.queue) (hp : b.phase = a.phase)
-    (hs : b.stopping = a.stopping) : PV strict b r := by
+    (hs : b.stopping = a.stopping) : PV strict E b r := by
   intro x hx
   rcases h x (ho x hx) with h1 | ⟨h1, h2, h3⟩
   · exact Or.inl (by simpa [queued, hq] using h1)
   · exact Or.inr ⟨by rw [hs]; exact h1, h2, by simpa [pend, hp] using h3⟩
 
-theorem PV.resolve {strict : Bool} {a : St} (h : PV strict a true) (cfg : Cfg) : PV strict (resetBatch cfg a) false := by
+theorem PV.resolve {strict : Bool} {E : List Sid} {a : St} (h : PV strict E a true) (cfg : Cfg) : PV strict E (resetBatch cfg a) false := by
   intro x hx
   rcases h x hx with h1 | ⟨_, h2, _⟩
   · exact Or.inl h1
@@ -120,9 +121,9 @@ theorem mem_sidsOf (b : Batch) (tp : TP) (x : Sid) : x ∈ b.sidsOf tp ↔ ∃ g
   · rintro ⟨g, ⟨h1, h2⟩, h3⟩; exact ⟨g, h1, h2, h3⟩
   · rintro ⟨g, h1, h2, h3⟩; exact ⟨g, ⟨h1, h2⟩, h3⟩
 
-theorem sendRequests_pv (strict : Bool) (st : St) (ls : List Lookup) (hp : st.phase = .lookups ls)
-    (hd : ls.all (·.pc.isDone) = true) (hn : st.outstanding.Nodup) (hv : PV strict st false) :
-    PV strict (sendRequests st ls).1 (sendRequests st ls).2.2 := by
+theorem sendRequests_pv (strict : Bool) (E : List Sid) (st : St) (ls : List Lookup) (hp : st.phase = .lookups ls)
+    (hd : ls.all (·.pc.isDone) = true) (hn : st.outstanding.Nodup) (hv : PV strict E st false) :
+    PV strict E (sendRequests st ls).1 (sendRequests st ls).2.2 := by
   have hsub := (procResults_fd ls st.outstanding []).sub
   have hg := procResults_grouped ls st.outstanding [] hn hd
   simp only [sendRequests]
@@ -157,25 +158,26 @@ theorem sendRequests_pv (strict : Bool) (st : St) (ls : List Lookup) (hp : st.ph
           obtain ⟨g, hg1, hg2⟩ := hx'
           exact ⟨g.tp, List.mem_map_of_mem hg1, (mem_sidsOf _ _ _).mpr ⟨g, hg1, rfl, hg2⟩⟩
 
-theorem dispatch_pv (strict : Bool) (cfg : Cfg) (st : St) (hi : st.phase = .idle) (hs : st.stopping = false)
-    (hn : st.outstanding.Nodup) (hv : PV strict st false) : PV strict (dispatch cfg st).1 false := by
+theorem dispatch_pv (strict : Bool) (E : List Sid) (cfg : Cfg) (st : St) (hi : st.phase = .idle) (hs : st.stopping = false)
+    (hn : st.outstanding.Nodup) (hv : PV strict E st false) : PV strict E (dispatch cfg st).1 false := by
   have hf := startLookups_frame cfg { st with queue := [], msgCount := 0, byteCount := 0 } st.queue
   obtain ⟨_, _, s3⟩ := startLookups_spec cfg { st with queue := [], msgCount := 0, byteCount := 0 } st.queue
   have hls : (startLookups cfg { st with queue := [], msgCount := 0, byteCount := 0 } st.queue).2.1.map (·.req.sid) = queued st := by
     have := congrArg (List.map (·.sid)) s3
     simpa [queued, List.map_map, Function.comp_def] using this
-  have hv2 : PV strict { (startLookups cfg { st with queue := [], msgCount := 0, byteCount := 0 } st.queue).1 with
+  have hv2 : PV strict E { (startLookups cfg { st with queue := [], msgCount := 0, byteCount := 0 } st.queue).1 with
       phase := .lookups (startLookups cfg { st with queue := [], msgCount := 0, byteCount := 0 } st.queue).2.1 } false := by
     intro x hx
     rw [hf] at hx
-    rcases hv x hx with h | ⟨_, _, h⟩
+    rcases hv x hx with (h | h) | ⟨_, _, h⟩
     · refine Or.inr ⟨by rw [hf]; exact hs, rfl, ?_⟩
       simp only [pend]; rw [hls]; exact h
+    · exact Or.inl (Or.inr h)
     · simp [pend, hi] at h
   simp only [dispatch]
   split
   · rename_i hd
-    have h3 := sendRequests_pv strict _ _ rfl hd (by rw [hf]; exact hn) hv2
+    have h3 := sendRequests_pv strict E _ _ rfl hd (by rw [hf]; exact hn) hv2
     split
     · rename_i hr; rw [hr] at h3; exact h3.resolve cfg
     · rename_i hr
@@ -185,44 +187,44 @@ theorem dispatch_pv (strict : Bool) (cfg : Cfg) (st : St) (hi : st.phase = .idle
       rw [hr'] at h3; exact h3
   · exact hv2
 
-theorem sendBatch_pv (strict : Bool) (cfg : Cfg) (st : St) (hn : st.outstanding.Nodup) (hv : PV strict st false) :
-    PV strict (sendBatch cfg st).1 false := by
+theorem sendBatch_pv (strict : Bool) (E : List Sid) (cfg : Cfg) (st : St) (hn : st.outstanding.Nodup) (hv : PV strict E st false) :
+    PV strict E (sendBatch cfg st).1 false := by
   simp only [sendBatch]; split
   · rename_i h
     simp only [canDispatch, Bool.and_eq_true, Bool.not_eq_eq_eq_not, Bool.not_true, beq_iff_eq] at h
-    exact dispatch_pv strict cfg st h.1.2 h.2 hn hv
+    exact dispatch_pv strict E cfg st h.1.2 h.2 hn hv
   · exact hv
 
-theorem checkSendBatch_pv (strict : Bool) (cfg : Cfg) (st : St) (hn : st.outstanding.Nodup) (hv : PV strict st false) :
-    PV strict (checkSendBatch cfg st).1 false := by
+theorem checkSendBatch_pv (strict : Bool) (E : List Sid) (cfg : Cfg) (st : St) (hn : st.outstanding.Nodup) (hv : PV strict E st false) :
+    PV strict E (checkSendBatch cfg st).1 false := by
   simp only [checkSendBatch]; split
-  · exact sendBatch_pv strict cfg st hn hv
+  · exact sendBatch_pv strict E cfg st hn hv
   · exact hv
 
-theorem completeBatch_pv (strict : Bool) (cfg : Cfg) (st : St) (hn : st.outstanding.Nodup) (hv : PV strict st true) :
-    PV strict (completeBatch cfg st).1 false := by
+theorem completeBatch_pv (strict : Bool) (E : List Sid) (cfg : Cfg) (st : St) (hn : st.outstanding.Nodup) (hv : PV strict E st true) :
+    PV strict E (completeBatch cfg st).1 false := by
   simp only [completeBatch]
-  exact checkSendBatch_pv strict cfg _ hn (hv.resolve cfg)
+  exact checkSendBatch_pv strict E cfg _ hn (hv.resolve cfg)
 
-theorem finish_pv (strict : Bool) (cfg : Cfg) (r : St × List Ob × Bool) (hn : r.1.outstanding.Nodup)
-    (hv : PV strict r.1 r.2.2) : PV strict (finish cfg r).1 false := by
+theorem finish_pv (strict : Bool) (E : List Sid) (cfg : Cfg) (r : St × List Ob × Bool) (hn : r.1.outstanding.Nodup)
+    (hv : PV strict E r.1 r.2.2) : PV strict E (finish cfg r).1 false := by
   simp only [finish]; split
-  · rename_i h; rw [h] at hv; exact completeBatch_pv strict cfg r.1 hn hv
+  · rename_i h; rw [h] at hv; exact completeBatch_pv strict E cfg r.1 hn hv
   · rename_i h
     have h' : r.2.2 = false := by simpa using h
     rw [h'] at hv; exact hv
 
-theorem afterLookups_pv (strict : Bool) (cfg : Cfg) (st : St) (ls : List Lookup) (obs : List Ob)
-    (hn : st.outstanding.Nodup) (hv : PV strict { st with phase := .lookups ls } false) :
-    PV strict (afterLookups cfg st ls obs).1 false := by
+theorem afterLookups_pv (strict : Bool) (E : List Sid) (cfg : Cfg) (st : St) (ls : List Lookup) (obs : List Ob)
+    (hn : st.outstanding.Nodup) (hv : PV strict E { st with phase := .lookups ls } false) :
+    PV strict E (afterLookups cfg st ls obs).1 false := by
   simp only [afterLookups]
   split
   · rename_i hd
-    have h3 := sendRequests_pv strict { st with phase := .lookups ls } ls rfl hd hn hv
+    have h3 := sendRequests_pv strict E { st with phase := .lookups ls } ls rfl hd hn hv
     have hn3 : (sendRequests { st with phase := .lookups ls } ls).1.outstanding.Nodup :=
       (sendRequests_fd { st with phase := .lookups ls } ls).nodup hn
     split
-    · rename_i hr; rw [hr] at h3; exact completeBatch_pv strict cfg _ hn3 h3
+    · rename_i hr; rw [hr] at h3; exact completeBatch_pv strict E cfg _ hn3 h3
     · rename_i hr
       have hr' : (sendRequests { st with phase := .lookups ls } ls).2.2 = false := by simpa using hr
       rw [hr'] at h3; exact h3
@@ -247,9 +249,9 @@ theorem pend_sub_allSids (strict : Bool) (st : St) (rid : Rid) (b : Batch) (hp :
     obtain ⟨tp, _, h⟩ := hx
     exact sidsOf_sub_allSids b tp x h
 
-theorem deliverAll_pv (strict : Bool) (st : St) (rid : Rid) (b : Batch) (o : Outcome) (hp : st.phase = .sending rid b)
-    (hn : st.outstanding.Nodup) (hv : PV strict st false) :
-    PV strict (deliverAll st b o).1 (deliverAll st b o).2.2 := by
+theorem deliverAll_pv (strict : Bool) (E : List Sid) (st : St) (rid : Rid) (b : Batch) (o : Outcome) (hp : st.phase = .sending rid b)
+    (hn : st.outstanding.Nodup) (hv : PV strict E st false) :
+    PV strict E (deliverAll st b o).1 (deliverAll st b o).2.2 := by
   intro x hx
   have h1 : x ∈ st.outstanding := (deliver_fd st.outstanding b.allSids o).sub x hx
   have h2 : x ∉ b.allSids := deliver_removes st.outstanding b.allSids o hn x hx
@@ -259,11 +261,11 @@ theorem deliverAll_pv (strict : Bool) (st : St) (rid : Rid) (b : Batch) (o : Out
 
 /-- `_check_retry_payloads`, given that what is pending (`P`) is covered by the failed payloads (or, without
     acknowledgements, simply belongs to the batch) -/
-theorem checkRetry_pv (strict : Bool) (cfg : Cfg) (st : St) (b : Batch) (f : List FailedP) (P : List Sid)
+theorem checkRetry_pv (strict : Bool) (E : List Sid) (cfg : Cfg) (st : St) (b : Batch) (f : List FailedP) (P : List Sid)
     (hn : st.outstanding.Nodup)
-    (hv : ∀ x ∈ st.outstanding, x ∈ queued st ∨ (st.stopping = false ∧ x ∈ P))
+    (hv : ∀ x ∈ st.outstanding, (x ∈ queued st ∨ x ∈ E) ∨ (st.stopping = false ∧ x ∈ P))
     (hP : ∀ x ∈ P, if strict then (∃ fp ∈ f, x ∈ b.sidsOf fp.tp) else (cfg.acks = producerAckNotRequired ∧ x ∈ b.allSids)) :
-    PV strict (checkRetry cfg st b f).1 (checkRetry cfg st b f).2.2 := by
+    PV strict E (checkRetry cfg st b f).1 (checkRetry cfg st b f).2.2 := by
   simp only [checkRetry]
   split
   · rename_i hs
@@ -314,11 +316,11 @@ theorem checkRetry_pv (strict : Bool) (cfg : Cfg) (st : St) (b : Batch) (f : Lis
           exact this.2
 
 
-theorem handleResults_pv (strict : Bool) (cfg : Cfg) (st : St) (rid : Rid) (b : Batch) (rs : List Resp) (fs : List FailedP)
-    (hp : st.phase = .sending rid b) (hn : st.outstanding.Nodup) (hv : PV strict st false)
+theorem handleResults_pv (strict : Bool) (E : List Sid) (cfg : Cfg) (st : St) (rid : Rid) (b : Batch) (rs : List Resp) (fs : List FailedP)
+    (hp : st.phase = .sending rid b) (hn : st.outstanding.Nodup) (hv : PV strict E st false)
     (hcov : if strict then (∀ g ∈ b.groups, g.tp ∈ b.current → (∃ resp ∈ rs, resp.tp = g.tp) ∨ (∃ f ∈ fs, f.tp = g.tp))
             else (cfg.acks = producerAckNotRequired ∧ rs = [] ∧ fs ≠ [])) :
-    PV strict (handleResults cfg st b rs fs).1 (handleResults cfg st b rs fs).2.2 := by
+    PV strict E (handleResults cfg st b rs fs).1 (handleResults cfg st b rs fs).2.2 := by
   have hfd := deliverMany_fd st.outstanding ((rs.filter (·.error = 0)).map (fun r => (b.sidsOf r.tp, Outcome.ok r)))
   have hrem := deliverMany_removes st.outstanding ((rs.filter (·.error = 0)).map (fun r => (b.sidsOf r.tp, Outcome.ok r))) hn
   -- a pending send that is still outstanding after the acknowledged payloads fired belongs to a failed payload
@@ -366,7 +368,7 @@ theorem handleResults_pv (strict : Bool) (cfg : Cfg) (st : St) (rid : Rid) (b : 
         simp at hfe'
         exact hcov.2.2 hfe'
   · dsimp only
-    refine checkRetry_pv strict cfg _ _ _
+    refine checkRetry_pv strict E cfg _ _ _
       ((deliverMany st.outstanding ((rs.filter (·.error = 0)).map (fun r => (b.sidsOf r.tp, Outcome.ok r)))).1.filter (· ∈ pend strict st))
       (hfd.nodup hn) ?_ ?_
     · intro x hx
@@ -383,11 +385,11 @@ structure BOK (b : Batch) : Prop where
   sub : ∀ tp ∈ b.current, tp ∈ b.live
   ne : b.current ≠ []
 
-theorem handleSendResponse_pv (strict : Bool) (cfg : Cfg) (st : St) (rid : Rid) (b : Batch) (r : ProdRes)
-    (hp : st.phase = .sending rid b) (hn : st.outstanding.Nodup) (hv : PV strict st false) (hb : BOK b)
+theorem handleSendResponse_pv (strict : Bool) (E : List Sid) (cfg : Cfg) (st : St) (rid : Rid) (b : Batch) (r : ProdRes)
+    (hp : st.phase = .sending rid b) (hn : st.outstanding.Nodup) (hv : PV strict E st false) (hb : BOK b)
     (hacc : if strict then accounts (b.payloadsFor b.current) r = true
             else (cfg.acks = producerAckNotRequired ∧ isAcks0Shape r = true)) :
-    PV strict (handleSendResponse cfg st b r).1 (handleSendResponse cfg st b r).2.2 := by
+    PV strict E (handleSendResponse cfg st b r).1 (handleSendResponse cfg st b r).2.2 := by
   have cov : ∀ (rs : List Resp) (fs : List FailedP),
       (b.payloadsFor b.current).all (fun p => rs.any (·.tp = p.tp) || fs.any (·.tp = p.tp)) = true →
       ∀ g ∈ b.groups, g.tp ∈ b.current → (∃ resp ∈ rs, resp.tp = g.tp) ∨ (∃ f ∈ fs, f.tp = g.tp) := by
@@ -397,13 +399,13 @@ theorem handleSendResponse_pv (strict : Bool) (cfg : Cfg) (st : St) (rid : Rid) 
     simp only [Bool.or_eq_true, List.any_eq_true, decide_eq_true_eq] at this
     exact this
   cases r with
-  | none => simp only [handleSendResponse]; exact deliverAll_pv strict st rid b _ hp hn hv
+  | none => simp only [handleSendResponse]; exact deliverAll_pv strict E st rid b _ hp hn hv
   | responses rs =>
     cases rs with
-    | nil => simp only [handleSendResponse]; exact deliverAll_pv strict st rid b _ hp hn hv
+    | nil => simp only [handleSendResponse]; exact deliverAll_pv strict E st rid b _ hp hn hv
     | cons a rest =>
       simp only [handleSendResponse]
-      apply handleResults_pv strict cfg st rid b _ _ hp hn hv
+      apply handleResults_pv strict E cfg st rid b _ _ hp hn hv
       cases strict with
       | true =>
         simp only [if_true] at hacc ⊢
@@ -414,7 +416,7 @@ theorem handleSendResponse_pv (strict : Bool) (cfg : Cfg) (st : St) (rid : Rid) 
         exact absurd hacc.2 (by simp)
   | failed rs fs =>
     simp only [handleSendResponse]
-    apply handleResults_pv strict cfg st rid b _ _ hp hn hv
+    apply handleResults_pv strict E cfg st rid b _ _ hp hn hv
     cases strict with
     | true =>
       simp only [if_true] at hacc ⊢
@@ -432,7 +434,7 @@ theorem handleSendResponse_pv (strict : Bool) (cfg : Cfg) (st : St) (rid : Rid) 
   | err k =>
     simp only [handleSendResponse]
     split
-    · apply handleResults_pv strict cfg st rid b _ _ hp hn hv
+    · apply handleResults_pv strict E cfg st rid b _ _ hp hn hv
       cases strict with
       | true =>
         simp only [if_true]
@@ -448,7 +450,7 @@ theorem handleSendResponse_pv (strict : Bool) (cfg : Cfg) (st : St) (rid : Rid) 
         | cons tp rest =>
           have := hb.sub tp (by rw [hcur]; exact List.mem_cons_self)
           rw [hl] at this; cases this
-    · exact deliverAll_pv strict st rid b _ hp hn hv
+    · exact deliverAll_pv strict E st rid b _ hp hn hv
 
 
 /-! ### a whole step -/
@@ -460,37 +462,38 @@ def AccOK (strict : Bool) (cfg : Cfg) (st : St) (e : Ev) : Prop :=
     if strict then accounts (b.payloadsFor b.current) r = true
     else (cfg.acks = producerAckNotRequired ∧ isAcks0Shape r = true)
 
-theorem PV.same {strict : Bool} {a b : St} {r : Bool} (h : PV strict a r)
+theorem PV.same {strict : Bool} {E : List Sid} {a b : St} {r : Bool} (h : PV strict E a r)
     (ho : b.outstanding = a.outstanding) (hq : b.queue = a.queue) (hp : b.phase = a.phase)
-    (hs : b.stopping = a.stopping) : PV strict b r :=
+    (hs : b.stopping = a.stopping) : PV strict E b r :=
   h.shrink (fun x hx => by rw [ho] at hx; exact hx) hq hp hs
 
-theorem zombieTimer_pv (strict : Bool) (st : St) (tid : Tid) (hv : PV strict st false) :
-    PV strict (zombieTimer st tid).1 false := by
+theorem zombieTimer_pv (strict : Bool) (E : List Sid) (st : St) (tid : Tid) (hv : PV strict E st false) :
+    PV strict E (zombieTimer st tid).1 false := by
   simp only [zombieTimer]; split
   · exact hv.same rfl rfl rfl rfl
   · exact hv
 
-theorem cancelSend_pv (strict : Bool) (st : St) (sid : Sid) (hn : st.outstanding.Nodup) (hv : PV strict st false) :
-    PV strict (cancelSend st sid).1 false := by
+theorem cancelSend_pv (strict : Bool) (E : List Sid) (st : St) (sid : Sid) (hn : st.outstanding.Nodup) (hv : PV strict E st false) :
+    PV strict E (cancelSend st sid).1 false := by
   simp only [cancelSend]
   split
   · split
     · intro x hx
       have hx1 : x ∈ st.outstanding := List.mem_of_mem_erase hx
       have hne : x ≠ sid := by intro hc; subst hc; exact hn.not_mem_erase hx
-      rcases hv x hx1 with h | h
-      · left
+      rcases hv x hx1 with (h | h) | h
+      · left; left
         simp only [queued, List.mem_map, List.mem_filter] at h ⊢
         obtain ⟨r, hr, hre⟩ := h
         exact ⟨r, ⟨hr, by simpa [hre] using hne⟩, hre⟩
+      · exact Or.inl (Or.inr h)
       · exact Or.inr h
     · exact hv.shrink (fun x hx => List.mem_of_mem_erase hx) rfl rfl rfl
   · exact hv
 
-theorem step_pv (strict : Bool) (cfg : Cfg) (st : St) (e : Ev) (hn : st.outstanding.Nodup)
+theorem step_pv (strict : Bool) (E : List Sid) (cfg : Cfg) (st : St) (e : Ev) (hn : st.outstanding.Nodup)
     (hlt : ∀ x ∈ st.outstanding, x < st.nextSid) (hb : ∀ rid b, st.phase = .sending rid b → BOK b)
-    (hacc : AccOK strict cfg st e) (hv : PV strict st false) : PV strict (step cfg st e).1 false := by
+    (hacc : AccOK strict cfg st e) (hv : PV strict E st false) : PV strict E (step cfg st e).1 false := by
   cases e with
   | send sid topic key msgs =>
     simp only [step]
@@ -501,7 +504,7 @@ theorem step_pv (strict : Bool) (cfg : Cfg) (st : St) (e : Ev) (hn : st.outstand
       split
       · exact hv.same rfl rfl rfl rfl
       · simp only [doSend]
-        apply checkSendBatch_pv strict cfg
+        apply checkSendBatch_pv strict E cfg
         · simp only [enqueue]
           rw [List.nodup_append]
           refine ⟨hn, by simp, ?_⟩
@@ -511,17 +514,18 @@ theorem step_pv (strict : Bool) (cfg : Cfg) (st : St) (e : Ev) (hn : st.outstand
         · intro x hx
           simp only [enqueue, List.mem_append, List.mem_singleton] at hx
           rcases hx with hx | hx
-          · rcases hv x hx with h | h
-            · left; simp only [queued, enqueue, List.map_append, List.mem_append]; exact Or.inl h
+          · rcases hv x hx with (h | h) | h
+            · left; left; simp only [queued, enqueue, List.map_append, List.mem_append]; exact Or.inl h
+            · exact Or.inl (Or.inr h)
             · exact Or.inr h
-          · left; simp [queued, enqueue, hx]
+          · left; left; simp [queued, enqueue, hx]
   | cancel sid =>
     simp only [step]; split
-    · exact cancelSend_pv strict st sid hn hv
+    · exact cancelSend_pv strict E st sid hn hv
     · exact hv
   | tick =>
     simp only [step]; split
-    · exact sendBatch_pv strict cfg st hn hv
+    · exact sendBatch_pv strict E cfg st hn hv
     · exact hv
   | timer tid =>
     simp only [step]
@@ -530,7 +534,7 @@ theorem step_pv (strict : Bool) (cfg : Cfg) (st : St) (e : Ev) (hn : st.outstand
       simp only [timerLookups]
       split
       · rename_i l _
-        apply afterLookups_pv strict cfg
+        apply afterLookups_pv strict E cfg
         · rw [lookupHead_out]; exact hn
         · intro x hx
           have hx' : x ∈ st.outstanding := by
@@ -542,7 +546,7 @@ theorem step_pv (strict : Bool) (cfg : Cfg) (st : St) (e : Ev) (hn : st.outstand
           · refine Or.inr ⟨by simpa [(lookupHead_stat cfg st l.req).2.1] using h1, h2, ?_⟩
             simp only [pend, hp] at h3
             simp only [pend, setPc_sids]; exact h3
-      · exact zombieTimer_pv strict st tid hv
+      · exact zombieTimer_pv strict E st tid hv
     · rename_i t' b tps hp
       split
       · simp only [doRetry]
@@ -553,8 +557,8 @@ theorem step_pv (strict : Bool) (cfg : Cfg) (st : St) (e : Ev) (hn : st.outstand
           simp only [pend, hp] at h3
           simp only [pend]
           cases strict <;> exact h3
-      · exact zombieTimer_pv strict st tid hv
-    · exact zombieTimer_pv strict st tid hv
+      · exact zombieTimer_pv strict E st tid hv
+    · exact zombieTimer_pv strict E st tid hv
   | advance dt => exact hv
   | metaSet topic err parts => exact hv.same rfl rfl rfl rfl
   | metaReset topics => exact hv.same rfl rfl rfl rfl
@@ -566,7 +570,7 @@ theorem step_pv (strict : Bool) (cfg : Cfg) (st : St) (e : Ev) (hn : st.outstand
       simp only [metaDoneLookups]
       split
       · rename_i l _
-        apply afterLookups_pv strict cfg
+        apply afterLookups_pv strict E cfg
         · rw [metaContinue_out]; exact hn
         · intro x hx
           have hx' : x ∈ st.outstanding := by
@@ -587,9 +591,9 @@ theorem step_pv (strict : Bool) (cfg : Cfg) (st : St) (e : Ev) (hn : st.outstand
       split
       · rename_i hc
         simp only [Bool.and_eq_true, decide_eq_true_eq] at hc
-        apply finish_pv strict cfg
+        apply finish_pv strict E cfg
         · exact (handleSendResponse_fd cfg st b res).nodup hn
-        · exact handleSendResponse_pv strict cfg st r b res hp hn hv (hb r b hp)
+        · exact handleSendResponse_pv strict E cfg st r b res hp hn hv (hb r b hp)
             (hacc r b res hp rfl hc.2 (fun k r' he => by injection he with h1 _; rw [← h1]; exact hc.1.symm))
       · exact hv
     · exact hv
@@ -602,44 +606,95 @@ theorem step_pv (strict : Bool) (cfg : Cfg) (st : St) (e : Ev) (hn : st.outstand
       exact hv
 
 
+/-! ### a step that takes a result that does NOT account for its request: the batch's sends become exempt -/
+
+theorem PV.mono {strict : Bool} {E E' : List Sid} {a : St} {r : Bool} (h : PV strict E a r) (hs : ∀ x ∈ E, x ∈ E') :
+    PV strict E' a r := by
+  intro x hx
+  rcases h x hx with (h1 | h1) | h1
+  · exact Or.inl (Or.inl h1)
+  · exact Or.inl (Or.inr (hs x h1))
+  · exact Or.inr h1
+
+theorem step_pv_unacc (strict : Bool) (E E' : List Sid) (cfg : Cfg) (st : St) (e : Ev) (rid : Rid) (b : Batch) (r : ProdRes)
+    (hp : st.phase = .sending rid b) (hc : completionOf e = some r) (hval : validResult b r = true)
+    (hk : ∀ k r', e = .produceDone k r' → k = rid) (hn : st.outstanding.Nodup)
+    (hsub : ∀ x ∈ E, x ∈ E') (hall : ∀ x ∈ b.allSids, x ∈ E') (hv : PV strict E st false) :
+    PV strict E' (step cfg st e).1 false := by
+  cases e with
+  | produceDone k r' =>
+    have := hk k r' rfl; subst this
+    simp only [completionOf] at hc; injection hc with hc; subst hc
+    have hstep : step cfg st (.produceDone k r') = finish cfg (handleSendResponse cfg st b r') := by
+      simp [step, hp, hval]
+    rw [hstep]
+    have fd := handleSendResponse_fd cfg st b r'
+    have hq := (handleSendResponse_sameQ cfg st b r').1
+    apply finish_pv strict E' cfg _ (fd.nodup hn)
+    intro x hx
+    rcases hv x (fd.sub x hx) with (h | h) | ⟨_, _, h⟩
+    · have hqq : queued (handleSendResponse cfg st b r').1 = queued st := by simp only [queued]; rw [hq]
+      exact Or.inl (Or.inl (by rw [hqq]; exact h))
+    · exact Or.inl (Or.inr (hsub x h))
+    · exact Or.inl (Or.inr (hall x (pend_sub_allSids strict st k b hp x h)))
+  | stop w pout m =>
+    cases pout with
+    | none => simp [completionOf] at hc
+    | some r' =>
+      simp only [completionOf] at hc; injection hc with hc; subst hc
+      have hsv : stopValid st (some r') = true := by simp [stopValid, hp, hval]
+      have := (stop_fires_all cfg st w (some r') m hsv hn).1
+      intro x hx; rw [this] at hx; cases hx
+  | send _ _ _ _ => simp [completionOf] at hc
+  | cancel _ => simp [completionOf] at hc
+  | tick => simp [completionOf] at hc
+  | timer _ => simp [completionOf] at hc
+  | advance _ => simp [completionOf] at hc
+  | metaSet _ _ _ => simp [completionOf] at hc
+  | metaReset _ => simp [completionOf] at hc
+  | metaWipe => simp [completionOf] at hc
+  | metaDone _ _ => simp [completionOf] at hc
+
 /-! ### along the trace -/
 
 open Afkak.Monitor.C01
 
-theorem trackOb_acct (e : Ev) (r : Bool) (t : Track) (o : Ob) :
-    (trackOb e r t o).acct = t.acct ∧ (trackOb e r t o).acct0 = t.acct0 := by
+theorem trackOb_ex (e : Ev) (r : Bool) (t : Track) (o : Ob) :
+    (trackOb e r t o).ex1 = t.ex1 ∧ (trackOb e r t o).ex0 = t.ex0 := by
   cases o <;> exact ⟨rfl, rfl⟩
 
-theorem foldl_acct (e : Ev) (r : Bool) (obs : List Ob) (t : Track) :
-    (obs.foldl (trackOb e r) t).acct = t.acct ∧ (obs.foldl (trackOb e r) t).acct0 = t.acct0 := by
+theorem foldl_ex (e : Ev) (r : Bool) (obs : List Ob) (t : Track) :
+    (obs.foldl (trackOb e r) t).ex1 = t.ex1 ∧ (obs.foldl (trackOb e r) t).ex0 = t.ex0 := by
   induction obs generalizing t with
   | nil => exact ⟨rfl, rfl⟩
   | cons o rest ih =>
     rw [List.foldl_cons]
     obtain ⟨a1, a2⟩ := ih (trackOb e r t o)
-    obtain ⟨b1, b2⟩ := trackOb_acct e r t o
+    obtain ⟨b1, b2⟩ := trackOb_ex e r t o
     exact ⟨by rw [a1, b1], by rw [a2, b2]⟩
 
-theorem track_acct (pre : Snap) (t : Track) (s : Step) :
-    (track pre t s).acct = (trackEv pre t s.ev).acct ∧ (track pre t s).acct0 = (trackEv pre t s.ev).acct0 := by
-  obtain ⟨f1, f2⟩ := foldl_acct s.ev (isRetryStep t s.ev) s.obs (trackEv pre t s.ev)
+theorem track_ex (pre : Snap) (t : Track) (s : Step) :
+    (track pre t s).ex1 = (trackEv pre t s.ev).ex1 ∧ (track pre t s).ex0 = (trackEv pre t s.ev).ex0 := by
+  obtain ⟨f1, f2⟩ := foldl_ex s.ev (isRetryStep t s.ev) s.obs (trackEv pre t s.ev)
   simp only [track]
   repeat' split
   all_goals exact ⟨f1, f2⟩
 
-/-- accounting flags only go down -/
-theorem trackEv_acct_mono (pre : Snap) (t : Track) (e : Ev) :
-    ((trackEv pre t e).acct = true → t.acct = true) ∧ ((trackEv pre t e).acct0 = true → t.acct0 = true) := by
+/-- exemptions only grow -/
+theorem trackEv_ex_mono (pre : Snap) (t : Track) (e : Ev) :
+    (∀ x ∈ t.ex1, x ∈ (trackEv pre t e).ex1) ∧ (∀ x ∈ t.ex0, x ∈ (trackEv pre t e).ex0) := by
   simp only [trackEv]
   repeat' split
-  all_goals simp_all
+  all_goals
+    constructor <;> intro x hx
+    all_goals first | exact hx | exact List.mem_append_right _ hx
 
 /-- the summary takes the result the state takes -/
 theorem trackEv_completion {cfg : Cfg} {st : St} {t : Track} (h : Rel cfg st t) (pre : Snap) (e : Ev)
     (rid : Rid) (b : Batch) (r : ProdRes) (hp : st.phase = .sending rid b) (hc : completionOf e = some r)
     (hv : validResult b r = true) (hk : ∀ k r', e = .produceDone k r' → k = rid) :
-    (trackEv pre t e).acct = (t.acct && accounts (b.payloadsFor b.current) r) ∧
-    (trackEv pre t e).acct0 = (t.acct0 && isAcks0Shape r) := by
+    (trackEv pre t e).ex1 = (if accounts (b.payloadsFor b.current) r then t.ex1 else batchSids t ++ t.ex1) ∧
+    (trackEv pre t e).ex0 = (if isAcks0Shape r then t.ex0 else batchSids t ++ t.ex0) := by
   have a := h.sending rid b hp
   have hvf := validFor_of_sending h hp r
   cases e with
@@ -649,7 +704,7 @@ theorem trackEv_completion {cfg : Cfg} {st : St} {t : Track} (h : Rel cfg st t) 
     simp only [completionOf] at hc
     injection hc with hc; subst hc
     simp only [trackEv, effective, completionOf, a.cur, a.res, hvf, hv, beq_self_eq_true, Bool.and_self, if_true]
-    first | exact ⟨trivial, trivial⟩ | simp
+    first | exact ⟨trivial, trivial⟩ | exact ⟨rfl, rfl⟩ | simp
   | stop w pout m =>
     cases pout with
     | none => simp [completionOf] at hc
@@ -657,69 +712,105 @@ theorem trackEv_completion {cfg : Cfg} {st : St} {t : Track} (h : Rel cfg st t) 
       simp only [completionOf] at hc
       injection hc with hc; subst hc
       simp only [trackEv, effective, completionOf, a.cur, a.res, hvf, hv, if_true]
-      first | exact ⟨trivial, trivial⟩ | simp
+      first | exact ⟨trivial, trivial⟩ | exact ⟨rfl, rfl⟩ | simp
   | _ => simp [completionOf] at hc
 
-theorem accOK_of_track {cfg : Cfg} {st : St} {t : Track} (h : Rel cfg st t) (pre : Snap) (e : Ev) :
-    ((trackEv pre t e).acct = true → AccOK true cfg st e) ∧
-    (cfg.acks = producerAckNotRequired → (trackEv pre t e).acct0 = true → AccOK false cfg st e) := by
-  constructor
-  · intro ha rid b r hp hc hv hk
-    obtain ⟨e1, _⟩ := trackEv_completion h pre e rid b r hp hc hv hk
-    rw [e1] at ha
-    simp only [Bool.and_eq_true] at ha
-    simpa using ha.2
-  · intro h0 ha rid b r hp hc hv hk
-    obtain ⟨_, e2⟩ := trackEv_completion h pre e rid b r hp hc hv hk
-    rw [e2] at ha
-    simp only [Bool.and_eq_true] at ha
-    simp only [Bool.false_eq_true, if_false]
-    exact ⟨h0, ha.2⟩
+/-- the sends of the batch in flight are among those the summary would exempt -/
+theorem allSids_sub_batchSids {cfg : Cfg} {st : St} {t : Track} (h : Rel cfg st t) {rid : Rid} {b : Batch}
+    (hp : st.phase = .sending rid b) : ∀ x ∈ b.allSids, x ∈ batchSids t := by
+  intro x hx
+  have a := h.sending rid b hp
+  simp only [Batch.allSids, List.mem_flatMap] at hx
+  obtain ⟨g, hg, hxg⟩ := hx
+  simp only [batchSids, List.mem_flatMap, List.mem_filter, List.contains_iff_mem]
+  exact ⟨(g.tp, g.sids), ⟨a.br.lastP g hg, by rw [a.br.tps]; exact List.mem_map_of_mem hg⟩, hxg⟩
 
-/-- the invariant behind "fires exactly once" -/
+/-- the invariant behind "fires exactly once": every outstanding send is queued, pending in the batch in flight, or
+    belongs to a batch for which the client did not account -/
 structure FireRel (cfg : Cfg) (st : St) (t : Track) : Prop where
   rel : Rel cfg st t
   once : OnceInv st t
-  v1 : t.acct = true → PV true st false
-  v0 : cfg.acks = producerAckNotRequired → t.acct0 = true → PV false st false
+  v1 : PV true t.ex1 st false
+  v0 : cfg.acks = producerAckNotRequired → PV false t.ex0 st false
 
 theorem Rel.bok {cfg : Cfg} {st : St} {t : Track} (h : Rel cfg st t) : ∀ rid b, st.phase = .sending rid b → BOK b :=
   fun rid b hp => ⟨(h.sending rid b hp).sub, (h.sending rid b hp).ne⟩
 
+/-- one step of `PV` along the trace, accounted or not -/
+theorem pv_track_step (strict : Bool) (cfg : Cfg) (st : St) (t : Track) (e : Ev) (hrel : Rel cfg st t)
+    (honce : OnceInv st t) (E E' : List Sid) (hmono : ∀ x ∈ E, x ∈ E')
+    (hacc : ∀ rid b r, st.phase = .sending rid b → completionOf e = some r → validResult b r = true →
+      (∀ k r', e = .produceDone k r' → k = rid) →
+      (if strict then accounts (b.payloadsFor b.current) r = true
+        else (cfg.acks = producerAckNotRequired ∧ isAcks0Shape r = true)) ∨ (∀ x ∈ batchSids t, x ∈ E'))
+    (hv : PV strict E st false) : PV strict E' (step cfg st e).1 false := by
+  by_cases hA : AccOK strict cfg st e
+  · exact (step_pv strict E cfg st e honce.nodup honce.lt hrel.bok hA hv).mono hmono
+  · simp only [AccOK] at hA
+    have : ∃ rid b r, st.phase = .sending rid b ∧ completionOf e = some r ∧ validResult b r = true ∧
+        (∀ k r', e = .produceDone k r' → k = rid) ∧
+        ¬ (if strict then accounts (b.payloadsFor b.current) r = true
+            else (cfg.acks = producerAckNotRequired ∧ isAcks0Shape r = true)) := by
+      false_or_by_contra
+      rename_i hc
+      apply hA
+      intro rid b r h1 h2 h3 h4
+      false_or_by_contra
+      rename_i hc2
+      exact hc ⟨rid, b, r, h1, h2, h3, h4, hc2⟩
+    obtain ⟨rid, b, r, h1, h2, h3, h4, h5⟩ := this
+    rcases hacc rid b r h1 h2 h3 h4 with h6 | h6
+    · exact absurd h6 h5
+    · exact step_pv_unacc strict E E' cfg st e rid b r h1 h2 h3 h4 honce.nodup hmono
+        (fun x hx => h6 x (allSids_sub_batchSids hrel h1 x hx)) hv
+
 theorem fireRel_step (cfg : Cfg) (st : St) (t : Track) (pre : Snap) (e : Ev) (h : FireRel cfg st t) :
     FireRel cfg (step cfg st e).1 (track pre t (mkStep cfg st e)) ∧
     resolvedFiredStep cfg pre t (mkStep cfg st e) = true := by
-  obtain ⟨t1, t2⟩ := track_acct pre t (mkStep cfg st e)
-  obtain ⟨m1, m2⟩ := trackEv_acct_mono pre t e
-  obtain ⟨k1, k2⟩ := accOK_of_track h.rel pre e
-  have hv1 : (track pre t (mkStep cfg st e)).acct = true → PV true (step cfg st e).1 false := by
-    intro ha
-    rw [t1] at ha
-    exact step_pv true cfg st e h.once.nodup h.once.lt h.rel.bok (k1 ha) (h.v1 (m1 ha))
-  have hv0 : cfg.acks = producerAckNotRequired → (track pre t (mkStep cfg st e)).acct0 = true →
-      PV false (step cfg st e).1 false := by
-    intro h0 ha
-    rw [t2] at ha
-    exact step_pv false cfg st e h.once.nodup h.once.lt h.rel.bok (k2 h0 ha) (h.v0 h0 (m2 ha))
+  obtain ⟨t1, t2⟩ := track_ex pre t (mkStep cfg st e)
+  obtain ⟨m1, m2⟩ := trackEv_ex_mono pre t e
+  have hv1 : PV true (track pre t (mkStep cfg st e)).ex1 (step cfg st e).1 false := by
+    rw [t1]
+    apply pv_track_step true cfg st t e h.rel h.once t.ex1 _ m1 _ h.v1
+    intro rid b r hp hc hv hk
+    obtain ⟨e1, _⟩ := trackEv_completion h.rel pre e rid b r hp hc hv hk
+    by_cases ha : accounts (b.payloadsFor b.current) r = true
+    · exact Or.inl (by simpa using ha)
+    · right
+      intro x hx
+      show x ∈ (trackEv pre t e).ex1
+      rw [e1, if_neg ha]; exact List.mem_append_left _ hx
+  have hv0 : cfg.acks = producerAckNotRequired → PV false (track pre t (mkStep cfg st e)).ex0 (step cfg st e).1 false := by
+    intro h0
+    rw [t2]
+    apply pv_track_step false cfg st t e h.rel h.once t.ex0 _ m2 _ (h.v0 h0)
+    intro rid b r hp hc hv hk
+    obtain ⟨_, e2⟩ := trackEv_completion h.rel pre e rid b r hp hc hv hk
+    by_cases ha : isAcks0Shape r = true
+    · exact Or.inl (by simp only [Bool.false_eq_true, if_false]; exact ⟨h0, ha⟩)
+    · right
+      intro x hx
+      show x ∈ (trackEv pre t e).ex0
+      rw [e2, if_neg ha]; exact List.mem_append_left _ hx
   refine ⟨⟨(rel_step cfg st t pre e h.rel).1, (once_step cfg st t pre e h.once).2, hv1, hv0⟩, ?_⟩
-  -- the check: idle and accounted → everything outstanding is queued
-  have idle_ok : ∀ strict, PV strict (step cfg st e).1 false → (step cfg st e).1.phase = .idle →
-      (snapOf (step cfg st e).1).outstanding.all (· ∈ (snapOf (step cfg st e).1).queue) = true := by
-    intro strict hv hi
-    rw [List.all_eq_true]
-    intro x hx
-    rcases hv x hx with hq | ⟨_, _, hpd⟩
-    · simpa [snapOf, queued] using hq
-    · simp [pend, hi] at hpd
+  -- the check: idle → everything outstanding is queued or exempt
   simp only [resolvedFiredStep]
   by_cases hi : (step cfg st e).1.phase = .idle
-  · by_cases ha : (track pre t (mkStep cfg st e)).acct = true
-    · rw [show (mkStep cfg st e).post = snapOf (step cfg st e).1 from rfl, idle_ok true (hv1 ha) hi]; simp
-    · by_cases hb : (cfg.acks == producerAckNotRequired && (track pre t (mkStep cfg st e)).acct0) = true
-      · simp only [Bool.and_eq_true, beq_iff_eq] at hb
-        rw [show (mkStep cfg st e).post = snapOf (step cfg st e).1 from rfl, idle_ok false (hv0 hb.1 hb.2) hi]; simp
-      · simp only [Bool.not_eq_true] at ha hb
-        rw [ha, hb]; rfl
+  · rw [Bool.or_eq_true]; right
+    rw [List.all_eq_true]
+    intro x hx
+    have hx' : x ∈ (step cfg st e).1.outstanding := hx
+    simp only [Bool.or_eq_true, List.contains_iff_mem, exempt, Bool.and_eq_true, bne_iff_ne, ne_eq]
+    show x ∈ (snapOf (step cfg st e).1).queue ∨ _
+    rcases hv1 x hx' with (hq | hq) | ⟨_, _, hpd⟩
+    · left; simpa [snapOf, queued] using hq
+    · by_cases h0 : cfg.acks = producerAckNotRequired
+      · rcases hv0 h0 x hx' with (hq0 | hq0) | ⟨_, _, hpd⟩
+        · left; simpa [snapOf, queued] using hq0
+        · right; exact ⟨hq, Or.inr hq0⟩
+        · simp [pend, hi] at hpd
+      · right; exact ⟨hq, Or.inl h0⟩
+    · simp [pend, hi] at hpd
   · have : (mkStep cfg st e).post.idle = false := by
       simp only [mkStep, snapOf]
       cases hph : (step cfg st e).1.phase with
@@ -728,7 +819,7 @@ theorem fireRel_step (cfg : Cfg) (st : St) (t : Track) (pre : Snap) (e : Ev) (h 
     rw [this]; simp
 
 theorem fireRel_init (cfg : Cfg) : FireRel cfg (St.init cfg) {} :=
-  ⟨rel_init cfg, once_init cfg, fun _ x hx => by simp [St.init] at hx, fun _ _ x hx => by simp [St.init] at hx⟩
+  ⟨rel_init cfg, once_init cfg, fun x hx => by simp [St.init] at hx, fun _ x hx => by simp [St.init] at hx⟩
 
 theorem fire_from (cfg : Cfg) (evs : List Ev) (st : St) (t : Track) (pre : Snap) (h : FireRel cfg st t) :
     checkFrom (resolvedFiredStep cfg) pre t (traceFrom cfg st evs) = true := by
@@ -740,7 +831,7 @@ theorem fire_from (cfg : Cfg) (evs : List Ev) (st : St) (t : Track) (pre : Snap)
     exact ⟨r2, ih _ _ _ r1⟩
 
 /-- C01 "fires": on every model trace, whenever no batch is in flight every send that was dispatched has
-    fired - provided the client accounted for every payload of every request. -/
+    fired - except the sends of a batch for which the client did not account for every payload of a request. -/
 theorem resolvedFired_model (cfg : Cfg) (evs : List Ev) : resolvedFired cfg (traceOf cfg evs) = true :=
   fire_from cfg evs _ _ _ (fireRel_init cfg)
 
